@@ -218,43 +218,47 @@ func ifLessInts(fn *ast.FuncDecl, mentions ...string) []int64 {
 }
 
 // lenFieldLess: N of every `len(<x>.field) < N` in fn.
-// slotGuards looks at root and at the functions / methods of the same package that root calls directly: the literal
+// slotGuards looks at root and at the functions / methods of the same package that root calls, directly or through
+// other such helpers: the literal
 // bounds of every `if <ident> < N { … }` whose body writes one of the fields, and the number of writes
 // `x.<field>[i] = …` that are NOT inside such an if.
 func slotGuards(p *pkg, root *ast.FuncDecl, fields ...string) (guards []int64, unguarded int) {
 	fns := []*ast.FuncDecl{root}
 	seen := map[*ast.FuncDecl]bool{root: true}
-	ast.Inspect(root, func(n ast.Node) bool {
-		c, ok := n.(*ast.CallExpr)
-		if !ok {
-			return true
-		}
-		name, _ := calleeName(c)
-		if name == "" {
-			return true
-		}
-		var cands []*ast.FuncDecl
-		if d := p.funcs[name]; d != nil {
-			cands = append(cands, d)
-		}
-		var recvs []string
-		for r := range p.methods {
-			recvs = append(recvs, r)
-		}
-		sort.Strings(recvs)
-		for _, r := range recvs {
-			if d := p.methods[r][name]; d != nil {
+	// helpers of helpers too (getRoute -> descend -> captureParam): the list grows while it is walked
+	for at := 0; at < len(fns); at++ {
+		ast.Inspect(fns[at], func(n ast.Node) bool {
+			c, ok := n.(*ast.CallExpr)
+			if !ok {
+				return true
+			}
+			name, _ := calleeName(c)
+			if name == "" {
+				return true
+			}
+			var cands []*ast.FuncDecl
+			if d := p.funcs[name]; d != nil {
 				cands = append(cands, d)
 			}
-		}
-		for _, d := range cands {
-			if !seen[d] && d.Body != nil {
-				seen[d] = true
-				fns = append(fns, d)
+			var recvs []string
+			for r := range p.methods {
+				recvs = append(recvs, r)
 			}
-		}
-		return true
-	})
+			sort.Strings(recvs)
+			for _, r := range recvs {
+				if d := p.methods[r][name]; d != nil {
+					cands = append(cands, d)
+				}
+			}
+			for _, d := range cands {
+				if !seen[d] && d.Body != nil {
+					seen[d] = true
+					fns = append(fns, d)
+				}
+			}
+			return true
+		})
+	}
 	isField := func(e ast.Expr) bool {
 		ix, ok := e.(*ast.IndexExpr)
 		if !ok {
